@@ -22,6 +22,7 @@ THEOREMS = {"CbProps.C07": ["CbProps.C07." + t for t in [
 HDR = """struct In { int a; int b; };
 struct Out { int x; In in; int[2] ys; };
 struct Pt { int x; In in; };
+struct Deep { int d; Pt mid; };
 interface IX { void setX(int v); int bumpX(int d); void setXr(int v); void setIn(int v); void setYs(int i, int v); int getX(); int getInA(); int getYs(int i); }
 impl IX for Out {
     void setX(int v) { self.x = v; }
@@ -63,7 +64,7 @@ void dumpv(Out o) { println("V", o.x, o.in.a, o.in.b, o.ys[0], o.ys[1]); }
 """
 
 # layout of the root value: o1 o2 i1 oa ar1 ar2 n1
-VARS = ["o1", "o2", "i1", "oa", "ar1", "ar2", "n1", "pt1"]
+VARS = ["o1", "o2", "i1", "oa", "ar1", "ar2", "n1", "pt1", "dp1"]
 OUT_LEAVES = [("x", "0"), ("in.a", "1.0"), ("in.b", "1.1"), ("ys[0]", "2.0"), ("ys[1]", "2.1")]
 PT_LEAVES = [("x", "0"), ("in.a", "1.0"), ("in.b", "1.1")]
 
@@ -84,6 +85,9 @@ def leaves():
     out.append(("n1", "6"))
     for e, p in PT_LEAVES:
         out.append(("pt1.%s" % e, "7.%s" % p))
+    out.append(("dp1.d", "8.0"))
+    for e, p in PT_LEAVES:
+        out.append(("dp1.mid.%s" % e, "8.1.%s" % p))
     return out
 
 
@@ -112,7 +116,7 @@ def rand_init(r):
     return {"o1": out(), "o2": out(), "i1": [r.range(-50, 50), r.range(-50, 50)],
             "oa": [[r.range(-50, 50), [r.range(-50, 50), r.range(-50, 50)]] for _ in range(2)],
             "ar1": [r.range(-50, 50) for _ in range(3)], "ar2": [r.range(-50, 50) for _ in range(3)], "n1": r.range(-50, 50),
-            "pt1": [r.range(-50, 50), [r.range(-50, 50), r.range(-50, 50)]]}
+            "pt1": [r.range(-50, 50), [r.range(-50, 50), r.range(-50, 50)]], "dp1": [r.range(-50, 50), [r.range(-50, 50), [r.range(-50, 50), r.range(-50, 50)]]]}
 
 
 # ---- operation kinds: name -> generator(r, st) returning (cb, model_ops, callee_print or None)
@@ -316,6 +320,35 @@ def op_table():
         n = r.below(2)
         return "o%d.in = i1;" % (n + 1), ["c d:%d.1 d:2" % n], None
 
+    @reg("c_deep_member_in")
+    def _(r, st):
+        if r.chance(50):
+            return "dp1.mid = pt1;", ["c d:8.1 d:7"], None
+        k = r.below(2)
+        return "dp1.mid = oa[%d];" % k, ["c d:8.1 d:3.%d" % k], None
+
+    @reg("c_deep_member_out")
+    def _(r, st):
+        if r.chance(50):
+            return "pt1 = dp1.mid;", ["c d:7 d:8.1"], None
+        k = r.below(2)
+        return "oa[%d] = dp1.mid;" % k, ["c d:3.%d d:8.1" % k], None
+
+    @reg("c_deep_in_in")
+    def _(r, st):
+        return "dp1.mid.in = i1;", ["c d:8.1.1 d:2"], None
+
+    @reg("c_deep_in_out")
+    def _(r, st):
+        return "i1 = dp1.mid.in;", ["c d:2 d:8.1.1"], None
+
+    @reg("w_deep_leaf")
+    def _(r, st):
+        v = V(r)
+        e, pth = r.choice([("dp1.mid.in.a", "8.1.1.0"), ("dp1.mid.in.b", "8.1.1.1"), ("dp1.mid.x", "8.1.0"), ("dp1.d", "8.0"),
+                           ("pt1.in.a", "7.1.0"), ("pt1.in.b", "7.1.1")])
+        return "%s = %d;" % (e, v), ["w d:%s %d" % (pth, v)], None
+
     @reg("c_sa_elem")
     def _(r, st):
         k = r.below(2)
@@ -432,6 +465,8 @@ def render(case, gated_reads):
     L.append("    int[3] ar2 = [%d, %d, %d];\n" % tuple(ini["ar2"]))
     L.append("    int n1 = %d;\n" % ini["n1"])
     L.append("    Pt pt1;\n    pt1.x = %d; pt1.in.a = %d; pt1.in.b = %d;\n" % (ini["pt1"][0], ini["pt1"][1][0], ini["pt1"][1][1]))
+    dd = ini["dp1"]
+    L.append("    Deep dp1;\n    dp1.d = %d; dp1.mid.x = %d; dp1.mid.in.a = %d; dp1.mid.in.b = %d;\n" % (dd[0], dd[1][0], dd[1][1][0], dd[1][1][1]))
     L.append("    Out* p1 = &o1;\n    int* q = &ar1[1];\n")
     L.append(dump_src(gated_reads))
     for (kind, cb, mops, callee) in case.ops:
